@@ -85,8 +85,16 @@ CLAIMS = {
     category="proof",
     text=("Proved: completion of a host evaluation restores the pending output stream exactly and drops what the "
           "function left on the evaluation stack; the returned text is the concatenation of the function's lines; "
-          "unknown / blank names are refused unchanged. NOT proved: the frame property of the steps executed inside "
-          "the function (partial); it is decided by the tie (normalised save after every step) and by the lockstep "
+          "unknown / blank names are refused unchanged. Frame property (Proofs/C16Frame.lean, Hoare logic over the step "
+          "monad with the invariant Good: every thread begins with the untouched skeletons of the elements below the "
+          "evaluation frame, followed by that frame; pending choices = the old ones ++ choices whose threads have "
+          "that shape): running out of content, ~ret / ->->, choice points, external calls, diverts and every control "
+          "command except LIST_RANDOM keep it or end the story (T_nextContent, T_popTail, T_processChoice, "
+          "T_callExternalFunction, T_plfc_divert, T_performLogicAndFlowControl_partial); the state evaluate_function "
+          "builds satisfies it (good_after_push). NOT proved (partial): the lifting to the whole step, the continue "
+          "loop and evaluate_function end to end, and LIST_RANDOM; what can change on an ok result is stated in "
+          "DESIGN.md Ch.8 (choices / threads created inside the function, temporaries reached through a variable "
+          "pointer). The property is decided by the tie (normalised save after every step) and by the lockstep "
           "oracle with evaluations injected at random boundaries, each repeated."),
     design_ref="DESIGN.md section 5 C16",
     note="As C09. Only functions the generator marks pure are evaluated; arguments have the declared parameter types.",
@@ -131,8 +139,17 @@ CLAIMS = {
           "threads, choices, globals, evaluation stack, visit / turn counts, seed — is restored EQUAL "
           "(loadState_saveState_exact), loading a story's own save gives the story back (loadState_saveState_self). "
           "The token / code tables the codec rests on are proved equal to tables regenerated from the Rust source on "
-          "every run (Proofs/Tables.lean, translators/tables.py). NOT proved (partial): that every state reachable by "
-          "playing is Saveable and in normal form (checked by the executable saveableB on the states the tie visits), "
+          "every run (Proofs/Tables.lean, translators/tables.py). Which components of Saveable are invariants of the public operations is settled in "
+          "Proofs/C02Reach.lean / C02Counters.lean over an inductive closure Reach: the tree and list definitions "
+          "never change (reachable_root), TreeOK is kept (reachable_treeOK), every flow / thread / choice keeps its "
+          "call-stack shape (reachable_callstack), visit counts, turn indices, turn index and previousRandom stay i32 "
+          "values also through a failed load (reachable_counters); and three components are NOT invariants, each "
+          "proved by a concrete reachable counterexample that reproduces on the real runtime and needs a document no "
+          "compiler emits or an edited save (two sibling containers of one name: treeOK_not_invariant_of_loader; a "
+          "save whose currentFlowName names no flow: flowNames_not_invariant; a list literal without origin: "
+          "globals_not_invariant). NOT proved (partial): Saveable for every state reachable by playing a COMPILED "
+          "story (pointer validity, saveable output objects, seed range remain; checked by the executable saveableB "
+          "on the states the tie visits), "
           "and 'same future behaviour' as a consequence of state equality (it follows from determinism of the model; "
           "the real code is covered by the tie — the model's save equals the real save, normalised, after every step "
           "of every history — and by the oracle: a fresh story that loaded the save is played in lockstep with the "
